@@ -271,6 +271,15 @@ class Taint:
                         out.append(Op(fi, n, "builtin:" + name, n.args[0]))
                 if isinstance(n.func, ast.Attribute) and not tg.repo and T(n.func.value):
                     out.append(Op(fi, n, "method:" + n.func.attr, n.func.value))
+                # a library function given a host value (itertools.islice(value, n), copy.copy(value), json.dumps(value)): it iterates /
+                # copies / renders the value, i.e. runs its code, later or now
+                lib = [x for x in tg.ext if not x.startswith("builtins.") and not x.startswith("method:") and not x.startswith("call:") and "." in x
+                       and not x.startswith("logging.") and not x.startswith("deepproto.")]
+                if lib and not tg.repo and not bi:
+                    for a_ in n.args:
+                        if T(a_):
+                            out.append(Op(fi, n, "extcall:" + lib[0], a_))
+                            break
             elif isinstance(n, ast.Attribute) and isinstance(n.ctx, ast.Load):
                 if n.attr in SOURCE_ATTRS or (n.attr in SAFE_META and n.attr != "__class__"):
                     continue
